@@ -173,8 +173,8 @@ type ImgFile struct {
 	Commit   string `json:"commit,omitempty"`
 }
 
-func observeImage(ctx context.Context, ws bufworkspace.Workspace) ([]ImgFile, error) {
-	img, err := bufx.BuildWorkspaceImage(ctx, ws)
+func observeImage(ctx context.Context, ws bufmodule.ModuleSet) ([]ImgFile, error) {
+	img, err := bufimage.BuildImage(ctx, bufx.Logger, bufmodule.ModuleSetToModuleReadBucketWithOnlyProtoFiles(ws))
 	if err != nil {
 		return nil, err
 	}
@@ -192,7 +192,7 @@ func observeImage(ctx context.Context, ws bufworkspace.Workspace) ([]ImgFile, er
 
 // observeLsFiles reproduces what `buf ls-files --include-imports` computes from a workspace
 // (controller.GetImportableImageFileInfos + ImageFileInfosWithOnlyTargetsAndTargetImports), without an image build.
-func observeLsFiles(ctx context.Context, ws bufworkspace.Workspace) ([]RefFile, error) {
+func observeLsFiles(ctx context.Context, ws bufmodule.ModuleSet) ([]RefFile, error) {
 	fileInfos, err := bufmodule.GetFileInfos(ctx, bufmodule.ModuleSetToModuleReadBucketWithOnlyProtoFiles(ws))
 	if err != nil {
 		return nil, err
